@@ -32,6 +32,7 @@ type c08Op struct {
 type c08Prog struct {
 	Keys []string `json:"keys"` // key of each upload slot
 	Ops  []c08Op  `json:"ops"`
+	Conc *c08Conc `json:"concurrent,omitempty"` // concurrent variant (c08conc.go)
 }
 
 type c08 struct{ baseCheck }
@@ -57,6 +58,18 @@ const fiveMiB = 5 << 20
 
 func (c08) Gen(seed uint64, run int, tier string) *core.Case {
 	r := sim.Rng(seed, "gen")
+	if run%4 == 3 {
+		cfg := swarmCfg(r, 2)
+		p := c08Prog{Conc: c08GenConc(r)}
+		c := &core.Case{Check: "C08", Property: "C08", Seed: seed, Cfg: cfg}
+		if r.IntN(2) == 0 {
+			c.Sched = core.Sched{Policy: sim.Rand, PreemptP: []float64{0.05, 0.2, 0.5}[r.IntN(3)]}
+		} else {
+			c.Sched = core.Sched{Policy: sim.PCT, Depth: 1 + r.IntN(4), EstSteps: 200}
+		}
+		c.SetP(&p)
+		return c
+	}
 	cfg := swarmCfg(r, 3)
 	nu := 2 + r.IntN(3)
 	p := c08Prog{}
@@ -141,6 +154,22 @@ func uniqInts(a []int) []int {
 func (c08) Shrink(c *core.Case) []*core.Case {
 	var p c08Prog
 	c.GetP(&p)
+	if p.Conc != nil {
+		var out []*core.Case
+		if c.Cfg.Instances > 1 {
+			n := c.Clone()
+			n.Cfg.Instances = 1
+			out = append(out, n)
+		}
+		if c.Sched.Policy == sim.Replay {
+			for i := range c.Sched.Plan {
+				n := c.Clone()
+				n.Sched.Plan = append(append([]sim.Switch{}, c.Sched.Plan[:i]...), c.Sched.Plan[i+1:]...)
+				out = append(out, n)
+			}
+		}
+		return out
+	}
 	var out []*core.Case
 	for _, keep := range core.DropCandidates(len(p.Ops)) {
 		q := p
@@ -203,6 +232,9 @@ type c08Upload struct {
 func (c08) Exec(c *core.Case) (out *core.Outcome) {
 	var p c08Prog
 	c.GetP(&p)
+	if p.Conc != nil {
+		return c08ExecConc(c, &p)
+	}
 	o := &core.Outcome{}
 	out = o
 	defer guard(&out, c)
